@@ -688,7 +688,7 @@ def rand_cfg(rng, own=None, depths=None, filled_rng=None):
     own = own or rng.choice(["tensor", "tensor", "tensor", "free"])
     depth = rng.choice(depths or ([1, 2, 2, 3, 3, 4] if own == "tensor" else [1, 2, 2, 3]))
     ext = [rng.randint(2, 5) for _ in range(depth)]
-    default = rng.choice([0, 0, 7])
+    default = rng.choice([0, 0, 7, 0.5])       # a non-int default too: its box is not made by the int fast path of getDefault()
     dirty = rng.choice([0.0, 0.4, 0.7])
     spec = gen.rand_tree_spec(rng, ext, rng.choice([0.5, 0.7, 0.9]), dirty, default)
     cfg = {"own": own, "depth": depth, "ext": ext, "default": default, "spec": spec,
